@@ -4,6 +4,7 @@ import MalVerif.Py.TieVisitorTtc
 import MalVerif.Py.TieVisitorEq
 import MalVerif.Py.TieVisitorFile
 import MalVerif.Proofs.AssembleInclude
+import MalVerif.Proofs.CompileRefl
 /-!
 # C04 for the *translated* visitor
 
@@ -672,19 +673,19 @@ theorem translated_include_flatten_file (files : String → Option String) (f : 
   rw [translated_compile_ok_iff, translated_compile_ok_iff, hmodel]
 
 /-- **a repeated include at file level (translated code)**: including `p` once more at the end of the file changes
-nothing in `categories`, `assets`, `associations` (`hrefl…`: the items of the included specification equal themselves
-for Python's `==` — true of every dictionary Python builds, `metaEqv_refl`); the two compilations fail together.  The
-`defines` may differ: a key of `p` re-defined in between is set back (`Proofs/AssembleInclude.lean`, example). -/
+nothing in `categories`, `assets`, `associations`, and the two compilations fail together.  (The items of the included
+specification equal themselves for Python's `==` — `compileFile_refl`: the compiler only builds dictionaries with
+distinct keys — so the reflexivity hypothesis of the list-level `translated_include_repeat` is discharged.)  The `defines`
+may differ: a key of `p` re-defined in between is set back (`Proofs/AssembleInclude.lean`, example). -/
 theorem translated_include_repeat_file (files : String → Option String) (f : Nat) (root root' p src src' : String)
     (sp : CSpec) (ds1 ds2 : List Decl) (hroot : files root = some src)
     (hsrc : parseSource src = some (ds1 ++ .incl p :: ds2))
     (hroot' : files root' = some src') (hsrc' : parseSource src' = some (ds1 ++ .incl p :: ds2 ++ [.incl p]))
-    (hp : compileFile files f p = some sp)
-    (hreflc : ∀ y ∈ sp.categories, catEqv y y = true) (hrefla : ∀ y ∈ sp.assets, assetEqv y y = true)
-    (hrefls : ∀ y ∈ sp.associations, assocEqv y y = true) :
+    (hp : compileFile files f p = some sp) :
     (∃ s s', compileGen files (f+1) (.str root) = .ok (rSpec s) ∧ compileGen files (f+1) (.str root') = .ok (rSpec s') ∧
       s'.categories = s.categories ∧ s'.assets = s.assets ∧ s'.associations = s.associations) ∨
     ((∃ e, compileGen files (f+1) (.str root) = .error e) ∧ ∃ e, compileGen files (f+1) (.str root') = .error e) := by
+  obtain ⟨hreflc, hrefla, hrefls⟩ := compileFile_refl files f p sp hp
   have h1 := compileGen_tie files (f+1) root
   have h2 := compileGen_tie files (f+1) root'
   rw [compileFile_succ, hroot] at h1
